@@ -75,7 +75,13 @@ let () =
       let line = input_line stdin in
       (* the real code panicked while the harness computed the table: nothing to model, the
          harness reports the violation itself *)
-      if String.length line >= 10 && String.sub line 0 10 = "tablepanic" then print_endline line else begin
+      if String.length line >= 10 && String.sub line 0 10 = "tablepanic" then print_endline line
+      else if String.length line >= 10 && String.sub line 0 10 = "interleave" then
+        (* two live iterators: an oracle-only scenario of the harness, nothing to model *)
+        (match String.split_on_char ' ' line with
+         | [_; n; v] -> print_endline (Printf.sprintf "interleave n=%s %s | ok" n v)
+         | _ -> failwith "bad interleave case")
+      else begin
       let parts = String.split_on_char ';' line in
       let head, entries = match parts with h :: t -> h, t | [] -> "", [] in
       let kind, nn, npairs = match String.split_on_char ' ' head with
@@ -130,6 +136,46 @@ let () =
           else if not (check_ksub ksub g c) then "ksub"
           else if not (check_early canon (vbs_mixed g) g c) then "early"
           else "" in
+      if kind = "unit" then begin
+        (* isCanonical / addAugmentations one call at a time: U<i>=<edges>|<mode>; the model
+           functions is_canonical / add_augs of Search/Model.v on the same graph (state right
+           after AddVertex: no cache), canon and ksub_reps from the table of real answers *)
+        let pj = Buffer.create 4096 and st = Buffer.create 4096 in
+        Buffer.add_string pj (Printf.sprintf "unit n=%d" nn);
+        let popcount x = let c = ref 0 and y = ref x in while !y <> 0 do y := !y land (!y - 1); incr c done; !c in
+        for i = 0 to npairs - 1 do
+          let r = try
+              (match String.split_on_char '|' (find (Printf.sprintf "U%d" i)) with
+               | [es; mode] ->
+                 let g = vg_of_edges (nat_of_int nn)
+                     (List.init (String.length es) (fun i -> if es.[i] = '1' then n_of_int 1 else N0)) in
+                 let base = (nn - 1) * (nn - 2) / 2 in
+                 let aug = List.filter_map (fun u -> if es.[base + u] = '1' then Some (nat_of_int u) else None)
+                     (List.init (nn - 1) (fun u -> u)) in
+                 let augs c vb = match add_augs canon ksub g c vb with
+                   | Some (masks, _) -> Some (List.map int_of_n masks)
+                   | None -> None in
+                 let res = if mode = "c" then
+                     (match is_canonical canon g aug no_cache N0 with
+                      | None -> None
+                      | Some ((b, c), vb) -> if b then (match augs c vb with Some m -> Some (1, m) | None -> None)
+                        else Some (0, []))
+                   else (match augs no_cache N0 with Some m -> Some (1, m) | None -> None) in
+                 (match res with
+                  | None -> (Printf.sprintf "%d:model-panic" i, Printf.sprintf "%d:model-panic" i)
+                  | Some (v, masks) ->
+                    let sizes = Array.make (nn + 1) 0 in
+                    List.iter (fun x -> let c = popcount x in if c <= nn then sizes.(c) <- sizes.(c) + 1) masks;
+                    let l = ref (Array.to_list sizes) in
+                    let rec trim = function [] -> [] | 0 :: t -> trim t | x -> x in
+                    l := List.rev (trim (List.rev !l));
+                    (Printf.sprintf "%d:%s%d:%s" i mode v (join_ints !l), Printf.sprintf "%d:%s" i (join_ints masks)))
+               | _ -> failwith "bad unit")
+            with Missing key -> (Printf.sprintf "%d:model-missing:%s" i key, Printf.sprintf "%d:model-missing" i) in
+          Buffer.add_string pj (" | " ^ fst r); Buffer.add_string st (" | " ^ snd r)
+        done;
+        print_endline (Buffer.contents pj ^ " ##" ^ Buffer.contents st)
+      end else
       if kind = "spec" then begin
         (* sampled graphs: P<i>=<edges g>|<edges h>|<q>, h = g relabelled by q.  The per-graph
            clauses of canon_spec on both (check_graph, sound by check_graph_sound) and equality of
